@@ -137,7 +137,7 @@ def _random_cases(rng, n):
                         "hasG": False, "g": 0, "entries": entries})
         else:
             perms = [rng.choice(["rw", "wo", "tw", "ro"]) for _ in items]
-            sts = [rng.choice([0, 0, 0, rng.randrange(1, 7)]) for _ in items]
+            sts = [rng.choice([0, 0, 0, rng.randrange(1, 7), D.LINK_LOST]) for _ in items]
             out.append({"tr": "ble", "op": "write", "items": items, "perms": perms, "reqKnown": True, "http": "pdu",
                         "hasG": False, "g": 0, "entries": [E("st", k, s) for k, s in zip(items, sts)]})
     return out
